@@ -1180,3 +1180,55 @@ def _is_guard_stmt(st, world=None, mod=None):
     if isinstance(st, ast.Expr) and isinstance(st.value, ast.Call) and isinstance(st.value.func, ast.Name) and st.value.func.id.startswith("check_"):
         return True
     return False
+
+
+def option_packs(ctx, world):
+    """A6.optpack - a re-implemented wrapper that takes NumPy's remaining options as a pack (*args, **kwargs) applies
+    the pack exactly once on every path: it hands it to ONE constructor call and never to a recursive call of itself on
+    the elements (np.array(list, ndmin=2) pads the assembled array once, not every leaf)."""
+    from ..tutil import cases, unseq
+
+    ctx.describe("A6.optpack", "in the non-primitive wrappers of numpy_wrapper.py that take an option pack (*args and/or **kwargs), every path that returns passes each pack to exactly one call, and that call is not the wrapper itself (options such as ndmin / copy / order act once on the assembled result, not on every nested element)")
+    m = world.repo.mod("autograd.numpy.numpy_wrapper")
+    ev = world.ev
+    n = 0
+    for fq, fnode in m.functions():
+        if not isinstance(fnode, ast.FunctionDef) or _is_prim_def(world, m, fnode) or any(isinstance(p, ast.FunctionDef) for p in _parents(fnode)):
+            continue
+        a = fnode.args
+        if not (a.vararg and a.kwarg):
+            continue
+        name = fq.split(".")[-1]
+        if name in ("wrap_namespace", "wrap_intdtype", "parse_einsum_input"):
+            continue
+        sc = Scope()
+        for p in a.posonlyargs + a.args:
+            sc.vars[p.arg] = T("sym", name=p.arg, role="param")
+        packs = {}
+        for p in (a.vararg, a.kwarg):
+            packs[p.arg] = sc.vars[p.arg] = T("sym", name=p.arg, role="param")
+        res = ev.run(fnode.body, sc, m)
+        if res is None:
+            continue
+        self_ref = world.repo.resolve(m, name)
+        for ci, c in enumerate(cases(unseq(res))):
+            if c.leaf.op == "raise":
+                continue
+            for pname, psym in packs.items():
+                users = []
+                for t in walk(c.leaf):
+                    if t.op != "call":
+                        continue
+                    direct = list(t.args) + list(t.kw.values()) + list(t.get("dstar", []))
+                    if any(x is psym or (x.op == "star" and x.x is psym) for x in direct):
+                        users.append(t)
+                n += 1
+                inst = f"{name}:{pname}:path{ci}"
+                rec = [t for t in users if (lambda r: r is not None and self_ref is not None and r.qual == self_ref.qual)(resolve_callee(ev, t)[0])]
+                if rec:
+                    ctx.fail("A6.optpack", inst, f"numpy_wrapper.{name}|{pname}:recursive", loc_of(m, fnode), f"`{pname}` is handed to a recursive call of {name} on the elements (and again to the outer constructor): every option acts on each nested element as well as on the assembled result", f"np.{name}([x0, x1], ndmin=2): NumPy pads the assembled array once")
+                elif len(users) != 1:
+                    ctx.fail("A6.optpack", inst, f"numpy_wrapper.{name}|{pname}:uses={len(users)}", loc_of(m, fnode), f"`{pname}` reaches {len(users)} calls on one path (expected exactly one: NumPy applies the options once)", f"np.{name}(..., <any option>)")
+                else:
+                    ctx.ob("A6.optpack", inst, True, loc_of(m, fnode))
+    ctx.floor("A6.optpack (wrapper, pack, path) instances", n, 2)
